@@ -799,7 +799,8 @@ def _conv_obj(st, name, cls, rows):
     for row in rows.split(";"):
         ft, k, o = row.split(":")
         f, t = ft.split(">")
-        table.append((Unit(f), Unit(t), to_dec_or_frac(parse_rat(k)), to_dec_or_frac(parse_rat(o))))
+        table.append((Unit(f), Unit(t), _table_num(parse_rat(k), len(table)),
+                      _table_num(parse_rat(o), len(table) + 1)))
     tc = TableConverter(table)
     n = len([k for k in st.obj if k[0] == "conv"])
     if n % 2:
@@ -844,6 +845,16 @@ def _prefix(st, const):
     return f"ok {p.name} {p.abbr} {rat(p.factor)}"
 
 
+def _table_num(fr, i):
+    """factors / offsets of a conversion table as plain ints, Fractions or
+    Decimals in turn (any Rational is a legitimate entry)"""
+    if fr.denominator == 1 and i % 2 == 0:
+        return int(fr)
+    if i % 3 == 0:
+        return fr
+    return to_dec_or_frac(fr)
+
+
 @op("conv_table")
 def _conv_table(st, cls, rows):
     from quantity import TableConverter
@@ -852,8 +863,8 @@ def _conv_table(st, cls, rows):
     for row in rows.split(";"):
         ft, k, o = row.split(":")
         f, t = ft.split(">")
-        table.append((Unit(f), Unit(t), to_dec_or_frac(parse_rat(k)),
-                      to_dec_or_frac(parse_rat(o))))
+        table.append((Unit(f), Unit(t), _table_num(parse_rat(k), len(table)),
+                      _table_num(parse_rat(o), len(table) + 1)))
     # the list form and the mapping form (last row wins) in turn
     st.n_tables = getattr(st, "n_tables", 0) + 1
     if st.n_tables % 2 == 0:
